@@ -32,6 +32,10 @@ def run(ctx):
     from . import c04
 
     ctx.each(r01e, ctx, repo, T)
+    from . import c19 as _c19
+
+    ctx.each(_c19.r19c, ctx, repo)  # 0/0 in a parameter function is 0, never NaN: NaN passes every clip and rescale test and empties the compartment
+    ctx.each(_c19.r19g, ctx, repo)
     ctx.each(c04.r04b, ctx, repo)
 
     ctx.each(c04.r04c, ctx, repo)  # the residual outflow gets the remainder only while the explicit proportions sum below 1: otherwise it would be a negative (reverse) flow
